@@ -61,6 +61,25 @@ CHECKS = {
                         "suffix no '+'; Message.Type == Content.MediaType(); command Type set iff Resource set; enum fields hold members; "
                         "nil vs empty map identified; response commands carry a status; present optional nodes differ from the zero node"],
     },
+    "C02": {
+        "level_text": "Untrusted input is a valid encoding of every envelope/document shape (14 base templates, symbolic leaves) with up to k arbitrary "
+                      "structural mutations (delete, null, wrong JSON type, empty object/array, array wrap, alien key) at any tree position, decoded through "
+                      "the five typed decoders and the transport path (rawEnvelope.toEnvelope) by executing lime-go's real UnmarshalJSON/populate/"
+                      "UnmarshalDocument/UnmarshalText code symbolically. Verdicts: no reachable panic; every accepted envelope re-encodes and the "
+                      "re-encoding decodes (typed and transport path) to a deep-equal envelope.",
+        "level_note": "Trusted: SSA->SMT executor, encoding/json dispatch model (null/pointer/interface/Unmarshaler rules probed against the real library), z3. "
+                      "Bounds: k = 1 (quick) / 2 (thorough) mutations, string capacity 2 / 3. Byte-level malformed JSON, truncation and concatenation "
+                      "are rejected inside encoding/json before lime-go code runs and are outside the claim.",
+        "runs": [
+            {"harness": "HarnessC02Decode", "grid": {"base": list(range(14)), "target": [0, 1, 2, 3, 4, 5]}, "params": {"k": 1, "cap": 2},
+             "reach": ["c02:input-built"], "tier": "quick", "replay_reach": 1},
+            {"harness": "HarnessC02Decode", "grid": {"base": list(range(14)), "target": [0, 1, 2, 3, 4, 5]}, "params": {"k": 2, "cap": 3},
+             "reach": ["c02:input-built"], "tier": "thorough", "replay_reach": 1},
+        ],
+        "bounds": {"quick": {"mutations": 1, "string_cap": 2}, "thorough": {"mutations": 2, "string_cap": 3}},
+        "out": CODEC_OUT + ["inputs that are not well-formed JSON (handled by encoding/json)", "inputs more than k mutations away from a valid encoding"],
+        "assumptions": ["nil and empty metadata/option lists are identified when comparing envelopes"],
+    },
     "C11": {
         "level_text": "Every path of the real reply builders (SuccessResponse, SuccessResponseWithResource, FailureResponse, Message.Notification, "
                       "FailedNotification, both AutoReplyPings handlers) and of the real codec round trip of the built reply is executed symbolically "
